@@ -29,7 +29,7 @@ The filter-level results (`b64_fault_reported`, `uu_fault_reported`,
 `ustar_fault_reported`) are in `LA.Props.C09Filters`.
 -/
 import LA.Lemmas.ClientWriteSession
-import LA.Model.MemSink
+import LA.Lemmas.MemSink
 namespace LA.C09
 open LA.CW LA.MemSink
 
@@ -42,11 +42,6 @@ def zeros (n : Nat) : List Cell := List.replicate n (some 0)
 
 theorem cells_flatten (ds : List (List Nat)) : (cells ds).flatten = bytes ds := by
   simp [cells, bytes, List.map_flatten]
-
-theorem mem_allEvents {x : St × List Event} {l : List (St × List Event)} {e : Event}
-    (hx : x ∈ l) (he : e ∈ x.2) : e ∈ allEvents l := by
-  simp only [allEvents, List.mem_flatten, List.mem_map]
-  exact ⟨x.2, ⟨x, hx, rfl⟩, he⟩
 
 /-- **C09, exactly once and in order.**  For every callback and every schedule of
 (possibly short) positive answers: every call succeeds, close is reached, and the
@@ -155,18 +150,6 @@ example : taken (allEvents (session scriptWriter [.accept 1] 0 (-1) (cells [[1,2
     cells, bytes, Writer.ask, scriptWriter, Ans.ret, lastBlockTarget, lastBlockLen, CState.bufSize,
     allEvents, taken, Event.taken]
 
-theorem resumes_at {S : List Cell} : ∀ {t pre e post}, Resumes S t (pre ++ e :: post) →
-    e.offer <+: S.drop (t + (taken pre).length) := by
-  intro t pre
-  induction pre generalizing t with
-  | nil => intro e post h; simpa using h.1
-  | cons a r ih =>
-    intro e post h
-    obtain ⟨_, h2, h3⟩ := h
-    have := ih h3
-    have hl : a.taken.length = a.ret.toNat := by simp only [Event.taken, List.length_take]; omega
-    simpa [hl, Nat.add_assoc] using this
-
 /-- **C09, a short write is resumed where it stopped.**  In every session (any
 answers, up to the first reported failure) each offer begins exactly at the
 first byte of the intended stream that the callback has not yet accepted. -/
@@ -198,13 +181,6 @@ theorem fault_reported {σ : Type} (W : Writer σ) (w : σ) (bpb : Nat) (bil : I
   rw [cells_flatten] at h2
   exact ⟨h1, n, h2⟩
 
-theorem mem_allEvents_iff {l : List (St × List Event)} {e : Event} :
-    e ∈ allEvents l ↔ ∃ x ∈ l, e ∈ x.2 := by
-  simp only [allEvents, List.mem_flatten, List.mem_map]
-  constructor
-  · rintro ⟨_, ⟨x, hx, rfl⟩, he⟩; exact ⟨x, hx, he⟩
-  · rintro ⟨x, hx, he⟩; exact ⟨x.2, ⟨x, hx, rfl⟩, he⟩
-
 /-- **C09, the n-th invocation fails — for every n.**  With the scripted callback:
 if answer number `i` of the script is `zero` or `error` and the session gets as
 far as invocation `i`, then that invocation is reported: the call during which it
@@ -235,21 +211,6 @@ example : (session scriptWriter [.accept 9, .accept 2, .error] 4 (-1) (cells [[1
 theorem memory_write_overflow (m : Mem) (d : List Cell) (h : m.used + d.length > m.size) :
     memoryWrite m d = (-30, m) := by
   simp [memoryWrite, h]
-
-/-- Representation invariant of the memory sink. -/
-def MemOk (m : Mem) : Prop :=
-  m.used ≤ m.size ∧ m.size ≤ m.buf.length ∧ m.oob = false ∧ m.clientUsed = m.used
-
-theorem memoryWrite_ok (m : Mem) (d : List Cell) (h : MemOk m) : MemOk (memoryWrite m d).2 := by
-  obtain ⟨h1, h2, h3, h4⟩ := h
-  unfold memoryWrite
-  split
-  · exact ⟨h1, h2, h3, h4⟩
-  · rename_i hfit
-    have hle : m.used + d.length ≤ m.buf.length := by omega
-    rw [poke_eq_some hle]
-    refine ⟨by simp only []; omega, ?_, h3, rfl⟩
-    simp only [List.length_append, List.length_take, List.length_drop]; omega
 
 /-- **C09, memory sink.**  `archive_write_open_memory` with a caller block of
 `block` cells and a declared size `size ≤ block`, any block size, last-block
